@@ -2929,6 +2929,8 @@ fn drop_while(s: Seq, f: Func, env: &REnv) -> NRes<Obj> {
                 let x = x?;
                 if f.run1(env, x.clone())?.truthy() {
                     t.next();
+                } else {
+                    break;
                 }
             }
             Ok(Obj::Seq(Seq::Stream(Rc::from(t))))
